@@ -180,7 +180,15 @@ let read_oracle () : (float, int) oracle =
         | None -> raise (Model_error (Printf.sprintf "leaf-oracle-missing arm %d" a)));
     o_sizes = sizes }
 
-let read_op () : (float, int) op =
+let rec read_sop () : (float, int) sop =
+  match peek () with
+  | "fits" -> ignore (next ()); let ds = next_ints () in let rs = next_floats () in let vals = next_floats () in let o = read_oracle () in SFitS (ds, rs, vals, o)
+  | "pfits" -> ignore (next ()); let ds = next_ints () in let rs = next_floats () in let vals = next_floats () in let o = read_oracle () in SPartialFitS (ds, rs, vals, o)
+  | "preds" -> ignore (next ()); let vals = next_floats () in let o = read_oracle () in SPredictS (vals, o)
+  | "pexps" -> ignore (next ()); let vals = next_floats () in let o = read_oracle () in SPredictExpS (vals, o)
+  | _ -> SPlain (read_op ())
+
+and read_op () : (float, int) op =
   match next () with
   | "fit" -> let ds = next_ints () in let rs = next_floats () in let cx = read_ctx () in let o = read_oracle () in Fit (ds, rs, cx, o)
   | "pfit" -> let ds = next_ints () in let rs = next_floats () in let cx = read_ctx () in let o = read_oracle () in PartialFit (ds, rs, cx, o)
@@ -299,7 +307,7 @@ let run_case () =
         (match lp with LCf s -> ITree (tree_init fnum kf1 kf2 arms s) | LLin _ -> failwith "tree with linear lp")
     | s -> failwith ("np " ^ s) in
   expect "OPS";
-  let ops = next_list read_op in
+  let ops = next_list read_sop in
   expect "TAPE";
   Hashtbl.reset tape;
   let n = next_int () in
@@ -317,11 +325,11 @@ let run_case () =
   (try
      let m = ref m0 in
      List.iteri (fun i o ->
-         let (m1, r) = step fnum (=) tape_rng !m o in
+         let (m1, r) = sstep fnum (=) tape_rng !m o in
          (* tolerance mode: report how decisive each arg-max is, so that the harness can accept a
             different arm when the two best expectations agree up to rounding *)
          (match o with
-          | Predict (cx, orc) when not !exact_params ->
+          | SPlain (Predict (cx, orc)) when not !exact_params ->
               (try
                  let (_, e) = step fnum (=) tape_rng !m (PredictExp (cx, orc)) in
                  let margin d =
